@@ -306,6 +306,14 @@ def main(rep: Report, replay: dict | None) -> None:
                 vsample.append((f, kind, run))
     rep.traces_validated += good
     rep.extra["virtual_fault_replays"] = good
+    kinds: dict[str, int] = {}
+    for f in faults:
+        for c in f["exp"]["calls"]:
+            kinds[c] = kinds.get(c, 0) + 1
+    rep.extra["calls_in_model"] = kinds
+    for c in ("tcgetattr", "tcsetattr", "write", "tcdrain", "select", "read", "monotonic", "termsize", "ioctl", "more", "stream"):
+        if not kinds.get(c):
+            raise tlc.MachineryError(f"no behaviour of MC_TtyFault performs {c} (vacuous action)")
     for f, kind, run in vsample:
         scn = scn_of(f)
         traces.append(K.make_trace("virtual", scn, run, c12=False, c13=True))
